@@ -20,17 +20,30 @@
 from ...BoundaryCondition.CConversionBoundaryCondition import CConversionBoundaryCondition
 
 
-def writeT4BoundCond(dic_surf_mcnp, ofile):
-    '''Method writing GeomComp to the T4 input file.'''
+def writeT4BoundCond(dic_surf_mcnp, surf_renumbering, surf_used, ofile):
+    '''Method writing the boundary conditions to the T4 input file.
+
+    :param dic_surf_mcnp: the dictionary of MCNP surfaces
+    :param dict surf_renumbering: the renumbering of the surfaces induced by
+        the deduplication (identity if no surface was removed)
+    :param set surf_used: the IDs of the surfaces that appear in the geometry
+    '''
     d_boundCond = CConversionBoundaryCondition(
         dic_surf_mcnp).conversionBoundCond()
-    if not d_boundCond:
+    # a boundary condition can only be attached to a surface that is actually
+    # written; the flagged surface may have been replaced by a duplicate
+    bound_conds = []
+    for k, bound_cond in d_boundCond.items():
+        key = surf_renumbering.get(k, k)
+        entry = (bound_cond.typeOfBound, key)
+        if key in surf_used and entry not in bound_conds:
+            bound_conds.append(entry)
+    if not bound_conds:
         return
     ofile.write("\nBOUNDARY_CONDITION\n")
-    ofile.write(str(len(d_boundCond)))
+    ofile.write(str(len(bound_conds)))
     ofile.write("\n")
-    for k in d_boundCond.keys():
-        p_typeOfBound = d_boundCond[k].typeOfBound
+    for p_typeOfBound, k in bound_conds:
         ofile.write("ALL_COMPLETE %s %s\n" % (p_typeOfBound, k))
     ofile.write("END_BOUNDARY_CONDITION")
     ofile.write("\n")
